@@ -1,6 +1,10 @@
 package stats
 
-import "sync/atomic"
+import (
+	"sync/atomic"
+
+	"go.etcd.io/bbolt"
+)
 
 // zzVerifUnitBump is added to the unit identifier so that the C05 harness can
 // make "the hour change" at will.
@@ -18,4 +22,25 @@ func (s *StatsCtx) ZZVerifInstallClock() {
 func (s *StatsCtx) ZZVerifNextHour() {
 	zzVerifUnitBump.Add(1)
 	s.flush()
+}
+
+// ZZVerifDamageUnit is an environment fault, not an action of the server: it
+// makes the stored unit of the previous hour undecodable, as a crash or a
+// disk error in the middle of a write would.  The server's documented
+// reaction is to log the unit and go on without it.
+func (s *StatsCtx) ZZVerifDamageUnit() {
+	db := s.db.Load()
+	if db == nil {
+		return
+	}
+
+	id := s.unitIDGen()
+	_ = db.Update(func(tx *bbolt.Tx) (err error) {
+		bkt, err := tx.CreateBucketIfNotExists(idToUnitName(id - 1))
+		if err != nil {
+			return err
+		}
+
+		return bkt.Put([]byte{0}, []byte("this is not a gob-encoded unit"))
+	})
 }
